@@ -541,3 +541,69 @@ Proof. destruct i as [[[G purge] t] H]. unfold inclass_C05. rewrite !andb_true_i
   - destruct R2 as [h [Hh L]]. intros E. assert (Hi : In h (filter (lineageb G [t2]) (if purge then [] else H))).
     { apply filter_In. split; auto. apply (lineageb_spec G [t2] h WF). exists t2. split; [left|]; auto. }
     rewrite E in Hi. destruct Hi. Qed.
+
+(* ================================================================== I. command.stamp end to end *)
+Theorem e2e_decider_sound i o : check_e2e i o = true -> E2E_holds i o.
+Proof. destruct i as [[[[G purge] groups] dests] H]. unfold check_e2e, E2E_holds. intros CK PRE. rewrite PRE in CK.
+  destruct (pre_C05_facts _ _ _ _ PRE) as [WF _]. destruct o as [rws'|e]; [|discriminate].
+  exists rws'. split; auto. apply stamped_okb_spec; auto. Qed.
+
+Theorem any_decider_sound i o : check_C05_any i o = true -> C05_any_holds i o.
+Proof. destruct i, o; cbn; try discriminate; [apply decider_sound5|apply e2e_decider_sound]. Qed.
+
+Lemma pre_subset G purge t H : pre_C05 (G, purge, t, H) = true -> subsetN H (ids G) = true.
+Proof. unfold pre_C05. rewrite !andb_true_iff. tauto. Qed.
+
+(* a single id or base, with or without --purge, from any table whose rows (after the purge) are a state of the
+   domain — in particular from ANY table when --purge is given: the committed rows are (H0 \ lineage t) U {t} *)
+Theorem e2e_single G purge t H : ~ cyclic (all_down G) -> ndeps_okb G = true ->
+  E2E_holds (G, purge, [[t]], Some [t], H) (model_e2e (G, purge, [[t]], Some [t], H)).
+Proof. intros AC NK PRE. cbn [e2e_target] in *. set (H0 := e2e_start purge H) in *.
+  destruct (pre_C05_facts _ _ _ _ PRE) as [WF [ND AN]]. pose proof (gwf_of G WF AC NK) as W.
+  destruct (single_run G W WF t H0 ND AN) as [steps [os [E1 [E2 [L [F S]]]]]].
+  exists (final_rows os H0). split; auto. unfold model_e2e, stamp_cmd. fold (e2e_start purge H). fold H0.
+  rewrite (pre_subset _ _ _ _ PRE). cbn [negb].
+  change (stamp_revs_gen G [[t]] (Some [t]) H0) with (stamp_revs G (TIds [t]) H0). rewrite E1, E2. reflexivity. Qed.
+
+Theorem e2e_base G purge H : ~ cyclic (all_down G) -> ndeps_okb G = true ->
+  E2E_holds (G, purge, [[]], None, H) (model_e2e (G, purge, [[]], None, H)).
+Proof. intros AC NK PRE. cbn [e2e_target] in *. set (H0 := e2e_start purge H) in *.
+  destruct (pre_C05_facts _ _ _ _ PRE) as [WF [ND AN]]. pose proof (gwf_of G WF AC NK) as W.
+  destruct (base_run G W WF H0 ND) as [steps [os [E1 [E2 [L [F S]]]]]].
+  exists (final_rows os H0). split; auto. unfold model_e2e, stamp_cmd. fold (e2e_start purge H). fold H0.
+  rewrite (pre_subset _ _ _ _ PRE). cbn [negb].
+  change (stamp_revs_gen G [[]] None H0) with (stamp_revs G TBase H0). rewrite E1, E2. reflexivity. Qed.
+
+(* --purge from any table at all (rows unknown to the history included): the committed rows are exactly the target *)
+Theorem e2e_purge_any_table G t H : ~ cyclic (all_down G) -> ndeps_okb G = true -> wf_refsb G = true -> In t (ids G) ->
+  exists rws', model_e2e (G, true, [[t]], Some [t], H) = Ok rws' /\ forall x, In x rws' <-> x = t.
+Proof. intros AC NK WFb Ht.
+  assert (PRE : pre_C05 (G, false, TIds [t], e2e_start true H) = true).
+  { unfold pre_C05. cbn [e2e_start targets_of nodupb memN existsb negb andb subsetN forallb antichainb is_nil]. rewrite WFb. cbn [andb].
+    assert (M : memN t (ids G) = true) by (apply memN_In; auto). rewrite M. cbn [andb].
+    destruct (closure_d_spec G [t]) as [A [E _]]. rewrite E. rewrite N.eqb_refl. reflexivity. }
+  destruct (e2e_single G true t H AC NK PRE) as [rws' [E [_ [_ S]]]]. exists rws'. split; auto.
+  cbn [e2e_target e2e_start] in S. intros x. rewrite (S x). cbn [targets_of In]. intuition. Qed.
+
+(* label@head: filter_for_lineage tests the rows against the revision that carries the label AND the head; a row that
+   shares lineage only with the labelled revision (here through a depends_on) is folded into the destination.
+   c(label) base; a<-c; e<-a; d base depends_on c  (c=0 a=1 e=2 d=3); rows {a,d}; stamp lab@head (= e) -> {e}, not {e,d} *)
+Definition Gl : graph := [mkRev 0 [] [] [] []; mkRev 1 [0] [] [] []; mkRev 2 [1] [] [] []; mkRev 3 [] [0] [0] []]%N.
+Definition il : e2e_in := (Gl, false, [[0;2]]%N, Some [2]%N, [1;3]%N).
+Theorem label_head_refuted :
+  pre_C05 (Gl, false, TIds [2]%N, [1;3]%N) = true /\ ~ cyclic (all_down Gl) /\ ndeps_okb Gl = true /\
+  ~ E2E_holds il (model_e2e il) /\
+  E2E_holds (Gl, false, [[2]]%N, Some [2]%N, [1;3]%N) (model_e2e (Gl, false, [[2]]%N, Some [2]%N, [1;3]%N)).
+Proof. split; [vm_compute; reflexivity|]. split; [apply (rankedb_acyclic Gl N.to_nat); vm_compute; reflexivity|].
+  split; [vm_compute; reflexivity|]. split.
+  - intros Hh. unfold il in Hh. cbv beta iota in Hh. cbn [e2e_target e2e_start] in Hh.
+    destruct Hh as [rws' [E [_ [_ K]]]]; [vm_compute; reflexivity|].
+    assert (EM : model_e2e (Gl, false, [[0;2]]%N, Some [2]%N, [1;3]%N) = Ok [2]%N) by (vm_compute; reflexivity).
+    rewrite EM in E. inversion E; subst rws'.
+    assert (H3 : In 3%N [2]%N).
+    { apply K. left. split; [cbn; auto|]. intros [t [[<-|[]] L]].
+      assert (LB : lineageb Gl [2]%N 3%N = true).
+      { apply lineageb_spec; [apply wf_refsb_spec; vm_compute; reflexivity|]. exists 2%N. split; [left|]; auto. }
+      vm_compute in LB. discriminate. }
+    cbn in H3. intuition discriminate.
+  - apply e2e_single; [apply (rankedb_acyclic Gl N.to_nat); vm_compute; reflexivity|vm_compute; reflexivity]. Qed.
